@@ -10,7 +10,7 @@ Helper lemmas and the two tactics used to prove that the interpreter `PQ.Src.exe
 * `src_eval [extra]` : symbolic evaluation — `simp only` with the equations of the interpreter, the monad laws of
   `Except`, register look-ups, and the `extra` lemmas (the generated terms to unfold, the model functions to unfold,
   call lemmas of callees already tied).
-  A `while` is NOT unfolded (the equations `es1 … es67` = `Src.execStep.eq_1 … eq_67` are listed without `eq_9`, the one for `.while`;
+  A `while` is NOT unfolded (the equations `es1 … es76` = `Src.execStep.eq_1 … eq_76` are listed without `eq_9`, the one for `.while`;
   should the constructor order in `PQ/Model/Src.lean` change, adapt the list): loops are handled by per-loop lemmas.
 * `src_close` : closes an equation between two `do` blocks in `R` that perform the same reads in the same order:
   congruence under binds, case splits on the conditions, `simp_all` at the leaves.
@@ -406,13 +406,22 @@ theorem es64 [LT P] [DecidableLT P] : type_of% (@Src.execStep.eq_64 P _ _) := @S
 theorem es65 [LT P] [DecidableLT P] : type_of% (@Src.execStep.eq_65 P _ _) := @Src.execStep.eq_65 P _ _
 theorem es66 [LT P] [DecidableLT P] : type_of% (@Src.execStep.eq_66 P _ _) := @Src.execStep.eq_66 P _ _
 theorem es67 [LT P] [DecidableLT P] : type_of% (@Src.execStep.eq_67 P _ _) := @Src.execStep.eq_67 P _ _
+theorem es68 [LT P] [DecidableLT P] : type_of% (@Src.execStep.eq_68 P _ _) := @Src.execStep.eq_68 P _ _
+theorem es69 [LT P] [DecidableLT P] : type_of% (@Src.execStep.eq_69 P _ _) := @Src.execStep.eq_69 P _ _
+theorem es70 [LT P] [DecidableLT P] : type_of% (@Src.execStep.eq_70 P _ _) := @Src.execStep.eq_70 P _ _
+theorem es71 [LT P] [DecidableLT P] : type_of% (@Src.execStep.eq_71 P _ _) := @Src.execStep.eq_71 P _ _
+theorem es72 [LT P] [DecidableLT P] : type_of% (@Src.execStep.eq_72 P _ _) := @Src.execStep.eq_72 P _ _
+theorem es73 [LT P] [DecidableLT P] : type_of% (@Src.execStep.eq_73 P _ _) := @Src.execStep.eq_73 P _ _
+theorem es74 [LT P] [DecidableLT P] : type_of% (@Src.execStep.eq_74 P _ _) := @Src.execStep.eq_74 P _ _
+theorem es75 [LT P] [DecidableLT P] : type_of% (@Src.execStep.eq_75 P _ _) := @Src.execStep.eq_75 P _ _
+theorem es76 [LT P] [DecidableLT P] : type_of% (@Src.execStep.eq_76 P _ _) := @Src.execStep.eq_76 P _ _
 
 /-- symbolic evaluation of the interpreter -/
 syntax "src_eval" (" [" Lean.Parser.Tactic.simpLemma,* "]")? : tactic
 macro_rules
   | `(tactic| src_eval) => `(tactic| src_eval [])
   | `(tactic| src_eval [$ls,*]) => `(tactic|
-      simp only [PQ.SrcEquiv.es1, PQ.SrcEquiv.es2, PQ.SrcEquiv.es3, PQ.SrcEquiv.es4, PQ.SrcEquiv.es5, PQ.SrcEquiv.es6, PQ.SrcEquiv.es7, PQ.SrcEquiv.es8, PQ.SrcEquiv.es10, PQ.SrcEquiv.es11, PQ.SrcEquiv.es12, PQ.SrcEquiv.es13, PQ.SrcEquiv.es14, PQ.SrcEquiv.es15, PQ.SrcEquiv.es16, PQ.SrcEquiv.es17, PQ.SrcEquiv.es18, PQ.SrcEquiv.es19, PQ.SrcEquiv.es20, PQ.SrcEquiv.es21, PQ.SrcEquiv.es22, PQ.SrcEquiv.es23, PQ.SrcEquiv.es24, PQ.SrcEquiv.es25, PQ.SrcEquiv.es26, PQ.SrcEquiv.es27, PQ.SrcEquiv.es28, PQ.SrcEquiv.es29, PQ.SrcEquiv.es30, PQ.SrcEquiv.es31, PQ.SrcEquiv.es32, PQ.SrcEquiv.es33, PQ.SrcEquiv.es34, PQ.SrcEquiv.es35, PQ.SrcEquiv.es36, PQ.SrcEquiv.es37, PQ.SrcEquiv.es38, PQ.SrcEquiv.es39, PQ.SrcEquiv.es40, PQ.SrcEquiv.es41, PQ.SrcEquiv.es42, PQ.SrcEquiv.es43, PQ.SrcEquiv.es44, PQ.SrcEquiv.es45, PQ.SrcEquiv.es46, PQ.SrcEquiv.es47, PQ.SrcEquiv.es48, PQ.SrcEquiv.es49, PQ.SrcEquiv.es50, PQ.SrcEquiv.es51, PQ.SrcEquiv.es52, PQ.SrcEquiv.es53, PQ.SrcEquiv.es54, PQ.SrcEquiv.es55, PQ.SrcEquiv.es56, PQ.SrcEquiv.es57, PQ.SrcEquiv.es58, PQ.SrcEquiv.es59, PQ.SrcEquiv.es60, PQ.SrcEquiv.es61, PQ.SrcEquiv.es62, PQ.SrcEquiv.es63, PQ.SrcEquiv.es64, PQ.SrcEquiv.es65, PQ.SrcEquiv.es66, PQ.SrcEquiv.es67, Src.evalN, Src.evalNs, Src.evalP, Src.evalPs, Src.evalVs,
+      simp only [PQ.SrcEquiv.es1, PQ.SrcEquiv.es2, PQ.SrcEquiv.es3, PQ.SrcEquiv.es4, PQ.SrcEquiv.es5, PQ.SrcEquiv.es6, PQ.SrcEquiv.es7, PQ.SrcEquiv.es8, PQ.SrcEquiv.es10, PQ.SrcEquiv.es11, PQ.SrcEquiv.es12, PQ.SrcEquiv.es13, PQ.SrcEquiv.es14, PQ.SrcEquiv.es15, PQ.SrcEquiv.es16, PQ.SrcEquiv.es17, PQ.SrcEquiv.es18, PQ.SrcEquiv.es19, PQ.SrcEquiv.es20, PQ.SrcEquiv.es21, PQ.SrcEquiv.es22, PQ.SrcEquiv.es23, PQ.SrcEquiv.es24, PQ.SrcEquiv.es25, PQ.SrcEquiv.es26, PQ.SrcEquiv.es27, PQ.SrcEquiv.es28, PQ.SrcEquiv.es29, PQ.SrcEquiv.es30, PQ.SrcEquiv.es31, PQ.SrcEquiv.es32, PQ.SrcEquiv.es33, PQ.SrcEquiv.es34, PQ.SrcEquiv.es35, PQ.SrcEquiv.es36, PQ.SrcEquiv.es37, PQ.SrcEquiv.es38, PQ.SrcEquiv.es39, PQ.SrcEquiv.es40, PQ.SrcEquiv.es41, PQ.SrcEquiv.es42, PQ.SrcEquiv.es43, PQ.SrcEquiv.es44, PQ.SrcEquiv.es45, PQ.SrcEquiv.es46, PQ.SrcEquiv.es47, PQ.SrcEquiv.es48, PQ.SrcEquiv.es49, PQ.SrcEquiv.es50, PQ.SrcEquiv.es51, PQ.SrcEquiv.es52, PQ.SrcEquiv.es53, PQ.SrcEquiv.es54, PQ.SrcEquiv.es55, PQ.SrcEquiv.es56, PQ.SrcEquiv.es57, PQ.SrcEquiv.es58, PQ.SrcEquiv.es59, PQ.SrcEquiv.es60, PQ.SrcEquiv.es61, PQ.SrcEquiv.es62, PQ.SrcEquiv.es63, PQ.SrcEquiv.es64, PQ.SrcEquiv.es65, PQ.SrcEquiv.es66, PQ.SrcEquiv.es67, PQ.SrcEquiv.es68, PQ.SrcEquiv.es69, PQ.SrcEquiv.es70, PQ.SrcEquiv.es71, PQ.SrcEquiv.es72, PQ.SrcEquiv.es73, PQ.SrcEquiv.es74, PQ.SrcEquiv.es75, PQ.SrcEquiv.es76, Src.evalN, Src.evalNs, Src.evalP, Src.evalPs, Src.evalVs,
         Src.evalB, Src.bindN, Src.bindP, Src.bindV, Src.upd, Src.St.setS, Src.St.setN, Src.St.setP, Src.St.setV,
         bind_assoc, pure_bind, map_eq_pure_bind, Function.comp, PQ.SrcEquiv.ite_bind, PQ.SrcEquiv.error_bind,
         PQ.SrcEquiv.ok_bind, PQ.SrcEquiv.fin_normal, PQ.SrcEquiv.fin_ret, decide_eq_true_eq,
